@@ -558,7 +558,11 @@ func runCheck(id string, spec propSpec, tier string, seed uint64) int {
 						fmt.Printf("VIOLATION property=%s replay=%s\n", id, dst)
 						return 1
 					default:
-						trouble("replaying the witness of fixed finding %s failed (exit %d):\n%s", f.ID, code, out)
+						// The witness is a recorded choice list; on a changed tree the
+						// run may ask different questions or fail differently. That says
+						// nothing either way: go on with the batch, which judges the
+						// tree on its own.
+						fmt.Printf("note: the witness of fixed finding %s does not replay on this tree (exit %d); continuing with the batch\n", f.ID, code)
 					}
 				}
 			}
